@@ -88,7 +88,7 @@ KNOWN_ACCEPTED = {"second-write-via-loop": "accepts-second-write-via-loop"}
 
 
 def budget(tier):
-    return {"examples": 900 if tier == "quick" else 12000, "wall_s": 110 if tier == "quick" else 1500}
+    return {"examples": 900 if tier == "quick" else 12000, "wall_s": 110 if tier == "quick" else 900}
 
 
 def indent(text, n):
